@@ -1,7 +1,8 @@
 (* Wire.v -- decoding of requests and encoding of answers (integers and lists
    only), and the dispatcher run : sx -> sx that the extracted driver and the
    vm_compute cross-check both call. *)
-From SV Require Export Model.Num Model.Expr Model.Heap.
+From SV Require Export Model.Num Model.Expr Model.Heap Model.Plot Model.Prim.
+From SV Require Import Lemmas.Measure.
 Open Scope Q_scope.
 
 Fixpoint sx_eqb (x y : sx) : bool :=
@@ -167,6 +168,27 @@ Definition e_hstate (st : hstate) : sx :=
   L [e_list e_point (hpts (fst st)); e_list e_hcurve (hcurves (fst st)); e_list e_hshape (snd st);
      e_bool (heap_wf (fst st))].
 
+(* ---------- primitives, plotting ---------- *)
+Definition d_pyarg (x : sx) : option pyarg :=
+  match x with
+  | L [A 0%Z; q] => option_map PNum (d_Q q)
+  | L [A 1%Z; q] => option_map PNumStr (d_Q q)
+  | L [A 2%Z] => Some PStr
+  | L [A 3%Z] => Some PNone
+  | L [A 4%Z; b] => option_map PBool (d_bool b)
+  | L [A 5%Z] => Some PList
+  | _ => None
+  end.
+Definition e_path (p : path) : sx :=
+  e_list (fun vc : point * pcode => L [e_point (fst vc); A (code_num (snd vc))]) p.
+Definition e_patch (p : patch) : sx :=
+  match p with
+  | Fill q => L [A 1%Z; e_path q]
+  | Hole q => L [A 2%Z; e_path q]
+  | Outline pos q => L [A 3%Z; e_bool pos; e_path q]
+  | Background => L [A 4%Z]
+  end.
+
 (* ---------- dispatcher ---------- *)
 Definition run (req : sx) : sx :=
   match req with
@@ -270,6 +292,26 @@ Definition run (req : sx) : sx :=
                               (hcurves_of (var st v)))
                     (run_history (hempty, []) ops)
           | _, _ => bad end
+      | 42%nat, [a; b] =>
+          match d_shape a, d_shape b with
+          | Some a, Some b => e_bool (general_branch_faithful_b a b) | _, _ => bad end
+      | 43%nat, [k; a; c] =>
+          match d_nat k, d_pyarg a, d_point c with
+          | Some k, Some a, Some c =>
+              e_res e_shape (match k with
+                             | O => prim_square a c
+                             | S O => prim_triangle a c
+                             | _ => prim_regular4 a c end)
+          | _, _, _ => bad end
+      | 44%nat, [n; r; h; c] =>
+          match d_nat n, d_Q r, d_Q h, d_point c with
+          | Some n, Some r, Some h, Some c => e_res e_shape (prim_circle n r h c) | _, _, _, _ => bad end
+      | 45%nat, [s] => match d_shape s with Some s => e_list e_patch (plot_shape s) | None => bad end
+      | 46%nat, [j] =>
+          match d_jordan j with
+          | Some j => match decode (path_jordan j) with
+                      | Some js => L [A 0%Z; e_list e_jordan js] | None => L [A 1%Z] end
+          | None => bad end
       | 41%nat, [x; y; z] =>
           match d_Z x, d_Z y, d_Z z with
           | Some n, Some m, Some d =>
